@@ -389,3 +389,53 @@ M("c14-related-default-end", "C14", "C14/",
   (C, '        return trigger.params.get("RELATED", "START")', '        return trigger.params.get("RELATED", "END")'))
 M("c14-twin-rename", "C14", "silent",
   (A, "            for i in range(1, repeat + 1):\n                yield self._add(first, duration * i)", "            for k in range(1, 1 + repeat):\n                yield self._add(first, k * duration)"))
+
+# ---------------------------------------------------------------- C02
+M("c02-dtend-text", "C02", "C02/TYPE-TABLE", (PR, "        'dtend': 'date-time',", "        'dtend': 'text',"))
+M("c02-rdate-not-list", "C02", "C02/TYPE-TABLE", (PR, "        'rdate': 'date-time-list',", "        'rdate': 'date-time',"))
+M("c02-geo-text", "C02", "C02/TYPE-TABLE", (PR, "        'geo': 'geo',", "        'geo': 'text',"))
+M("c02-date-before-datetime", "C02", "C02/VALUE-TAG",
+  (PR, "        if isinstance(dt, (datetime, timedelta)):\n            self.params = Parameters()\n        elif isinstance(dt, date):\n            self.params = Parameters({'value': 'DATE'})",
+       "        if isinstance(dt, date):\n            self.params = Parameters({'value': 'DATE'})\n        elif isinstance(dt, (datetime, timedelta)):\n            self.params = Parameters()"))
+M("c02-no-date-tag", "C02", "C02/VALUE-TAG",
+  (PR, "        elif isinstance(dt, date):\n            self.params = Parameters({'value': 'DATE'})\n        elif isinstance(dt, time):", "        elif isinstance(dt, date):\n            self.params = Parameters()\n        elif isinstance(dt, time):"))
+M("c02-revert-list-value", "C02", "C02/",
+  (PR, "            if value:\n                self.params['VALUE'] = value\n", ""))
+M("c02-revert-trigger-tag", "C02", "C02/VALUE-TAG",
+  (C, "            if isinstance(value, datetime) and types_factory.types_map.get(name) == 'duration':\n                # e.g. TRIGGER: DURATION is the default value type\n                obj.params['VALUE'] = 'DATE-TIME'\n", ""))
+M("c02-revert-period-tzid", "C02", "C02/VALUE-TAG",
+  (PR, "        if isinstance(dt, tuple) and dt and isinstance(dt[0], datetime):\n            tzid = tzid_from_dt(dt[0])  # the period is written in the zone of its start\n        else:\n            tzid = tzid_from_dt(dt) if isinstance(dt, (datetime, time)) else None",
+       "        tzid = tzid_from_dt(dt) if isinstance(dt, (datetime, time)) else None"))
+M("c02-accum-reversed", "C02", "C02/ACCUM",
+  (C, "            elif isinstance(value, list):\n                value = [oldval] + value", "            elif isinstance(value, list):\n                value = value + [oldval]"))
+M("c02-accum-nested", "C02", "C02/ACCUM",
+  (C, "            elif isinstance(value, list):\n                value = [oldval] + value\n", ""))
+M("c02-tzid-not-forwarded-due", "C02", "C02/TZID-READ",
+  (C, "                datetime_names = ('DTSTART', 'DTEND', 'RECURRENCE-ID', 'DUE',", "                datetime_names = ('DTSTART', 'DTEND', 'RECURRENCE-ID',"))
+M("c02-twin-rename", "C02", "silent", (C, "oldval", "previous", 7))
+
+# ---------------------------------------------------------------- C11
+M("c11-elif-to-if", "C11", "C11/TZ-TAG",
+  (PR, "        if tzid == 'UTC':\n            s += \"Z\"\n        elif tzid:", "        if tzid == 'UTC':\n            s += \"Z\"\n        if tzid:"))
+M("c11-utc-gets-tzid-ddd", "C11", "C11/TZ-TAG",
+  (PR, "        if tzid is not None and tzid != 'UTC':\n            self.params.update({'TZID': tzid})", "        if tzid is not None:\n            self.params.update({'TZID': tzid})"))
+M("c11-revert-period-utc", "C11", "C11/TZ-TAG",
+  (PR, "        if tzid and tzid != 'UTC':\n            self.params['TZID'] = tzid", "        if tzid:\n            self.params['TZID'] = tzid"))
+M("c11-no-z", "C11", "C11/TZ-TAG", (PR, '            s += "Z"\n', '            pass\n'))
+M("c11-revert-acknowledged", "C11", "C11/UTC-FORCED",
+  (C, "('dtstamp', 'created', 'last-modified', 'acknowledged')", "('dtstamp', 'created', 'last-modified')"),
+  (C, "        self.add(name, vDDDTypes(tzp.localize_utc(value)))", "        self.add(name, value)"))
+M("c11-drop-created", "C11", "C11/UTC-FORCED",
+  (C, "('dtstamp', 'created', 'last-modified', 'acknowledged')", "('dtstamp', 'last-modified', 'acknowledged')"))
+M("c11-getter-no-utc", "C11", "C11/UTC-FORCED",
+  (C, "        return tzp.localize_utc(value)\n\n    def p_set", "        return value\n\n    def p_set"))
+M("c11-drop-recurrence-id", "C11", "C11/TZID-FORWARD",
+  (C, "('DTSTART', 'DTEND', 'RECURRENCE-ID', 'DUE',", "('DTSTART', 'DTEND', 'DUE',"))
+M("c11-decoder-ignores-tz", "C11", "C11/TZID-FORWARD",
+  (PR, "            if tzinfo:\n                return tzp.localize(datetime(*timetuple), tzinfo)\n            elif not ical[15:]:", "            if not ical[15:]:"))
+M("c11-astimezone-in-writer", "C11", "C11/",
+  (PR, "        dt = self.dt\n        tzid = tzid_from_dt(dt)\n", "        dt = self.dt\n        tzid = tzid_from_dt(dt)\n        if tzid and tzid != 'UTC':\n            dt = dt.astimezone(dt.tzinfo)\n"))
+M("c11-period-normalizes-end", "C11", "C11/TZ-TAG",
+  (PR, "        else:\n            end = end_or_duration\n            duration = end - start", "        else:\n            end = normalize_pytz(end_or_duration)\n            duration = end - start"),
+  (PR, "from .timezone import tzid_from_dt, tzid_from_tzinfo, tzp", "from .timezone import tzid_from_dt, tzid_from_tzinfo, tzp\nfrom .tools import normalize_pytz"))
+M("c11-twin-rename", "C11", "silent", (PR, "        tzid = tzid_from_dt(start)\n        if tzid and tzid != 'UTC':", "        zone_id = tzid_from_dt(start)\n        tzid = zone_id\n        if tzid and tzid != 'UTC':"))
